@@ -58,7 +58,7 @@ func init() {
 		Workers:    8,
 		Assumptions: []string{
 			"verdicts of FindRoute / ValidateRequest / ValidateResponse are controlled through the document and the request (required integer query parameter; response entries with or without an application/json integer schema; body bytes drawn from digits 1-9 and 'x') and recomputed by the driver for that family",
-			"status codes 101, 204, 304 and HEAD requests are not generated (httptest.ResponseRecorder and the net/http server differ there beyond what the Client model captures); informational codes 102, 103, 199 are generated: the model's client is transport-aware for them (real server: sent at once, fix nothing; recorder: final)",
+			"status codes 101, 204, 304 are not generated (httptest.ResponseRecorder and the net/http server differ there beyond what the Client model captures); informational codes 102, 103, 199 are generated: the model's client is transport-aware for them (real server: sent at once, fix nothing; recorder: final)",
 			"net/http's client gives up after more than 5 informational responses: such an exchange is compared as aborted",
 			"histories: sync.Pool-style reuse is observed when consecutive requests are served from one goroutine (recorder transport); concurrent requests use a bounded barrier (150 ms) so that all wrappers are alive at once",
 			"request verdict: the operation is described as in C07 (parameters with a controlled verdict, security requirements decided by an AuthenticationFunc from the accepted-scheme set, body passing / schema / missing / content-type) and the driver evaluates the C07 model of ValidateRequest on it; ValidationHandler + unknown method is generated only for paths without template variables",
@@ -199,6 +199,9 @@ func c14Method(c hx.Case) string {
 	return "GET"
 }
 
+// "head": the request is a HEAD request; the document declares the operation under `head` as well
+func c14Head(c hx.Case) bool { return jbool(c, "head") && c14Method(c) == "GET" }
+
 func c14Template(c hx.Case) string {
 	t := "/x"
 	for _, n := range c14PathNames(c14Rq(c)) {
@@ -291,6 +294,9 @@ func c14Doc(c hx.Case) *openapi3.T {
 		}
 	} else {
 		pi.Get = op
+		if jbool(c, "head") {
+			pi.Head = op
+		}
 		if jbool(c, "decoy") {
 			pi.Post = laxHere()
 		}
@@ -324,7 +330,7 @@ type c14Routers struct {
 var c14DocCache sync.Map // canonical doc text -> *c14Routers
 
 func c14RoutersFor(c hx.Case) *c14Routers {
-	cacheable := c["rq"] == nil && !jbool(c, "decoy") && !jbool(c, "noq")
+	cacheable := c["rq"] == nil && !jbool(c, "decoy") && !jbool(c, "noq") && !jbool(c, "head")
 	key := hx.Canon(c["doc"])
 	if cacheable {
 		if v, ok := c14DocCache.Load(key); ok {
@@ -685,6 +691,9 @@ func c14Request(c hx.Case, base string) *http.Request {
 	if jbool(rq, "hasBody") && jstr(rq, "bodyFail") != "empty" {
 		body = strings.NewReader(`{"a":1}`)
 	}
+	if c14Head(c) && method == "GET" {
+		method = "HEAD"
+	}
 	req, _ := http.NewRequest(method, base+path, body)
 	if jbool(rq, "hasBody") && jstr(rq, "bodyFail") != "empty" {
 		if jstr(rq, "bodyFail") == "ctype" {
@@ -954,6 +963,9 @@ func c14Diff(c hx.Case, im, want map[string]any, full bool, checkLogs bool) stri
 	}
 	if fmt.Sprint(im["status"]) != fmt.Sprint(want["status"]) {
 		return fmt.Sprintf("status: impl %v, expected %v", im["status"], want["status"])
+	}
+	if server && c14Head(c) {
+		want = c14With(want, "body", "") // net/http drops the body bytes of the answer to a HEAD request
 	}
 	if jstr(im, "body") != jstr(want, "body") {
 		return fmt.Sprintf("body: impl %q, expected %q", jstr(im, "body"), jstr(want, "body"))
@@ -1366,6 +1378,22 @@ func genC14(ctx *hx.Ctx, emit func(hx.Case)) {
 		for _, tr := range []string{"recorder", "server"} {
 			emit(c14With(base, "mode", "vh", "enc", "ops", "entry", "serve", "ops", ops, "transport", tr, "strict", false,
 				"errops", []any{c14Op("wh", 418), c14Op("w", "teapot")}))
+		}
+	}
+	// HEAD requests (the operation is declared under `head` too): the handler's bytes are validated and flushed as
+	// usual; a real server drops them on the wire
+	for _, ops := range [][]any{{ct, c14Op("w", "12")}, {ct, c14Op("w", "x")}, {c14Op("wh", 404), c14Op("w", "x")}, {}, {ct, c14Op("fl"), c14Op("w", "3")}} {
+		for _, strict := range []bool{true, false} {
+			for _, doc := range ifaceDocs {
+				for _, tr := range []string{"recorder", "server"} {
+					for _, router := range []string{"gorilla", "legacy"} {
+						emit(c14With(base, "head", true, "ops", ops, "strict", strict, "doc", doc, "transport", tr, "router", router))
+					}
+				}
+			}
+		}
+		for _, route := range []string{"ok", "nopath"} {
+			emit(c14With(base, "head", true, "mode", "vh", "enc", "vee", "entry", "mw", "ops", ops, "transport", "server", "strict", false, "route", route))
 		}
 	}
 	// every way of handing options to NewValidator: all lists of length ≤ 3 over a pool (order, repetition,
